@@ -71,6 +71,12 @@ def gen_ops(tier, rng):
     # invalid sizes are rejected
     for size in [1, 63, 65, 100]:
         ops.append((f"enc leo8 - 4 2 {size} 5", {"cat": "enc-badsize", "d": 4}))
+    # Encode on ONE encoder with shard sizes going down and up (pooled work buffers of another size must not show)
+    for fam in ["leo8", "leo16"]:
+        for (d, p) in [(10, 4), (4, 4), (3, 9)]:
+            for sizes in [[4096, 256, 64], [64, 4096, 128], [32768 + 64, 64, 32768]]:
+                subs = [f"e {sz} {rng.randrange(1, 1<<20)}" for sz in sizes]
+                ops.append((f"hist {fam} - {d} {p} ; " + " ; ".join(subs), {"cat": "enc-history", "d": d}))
     # Verify on Leopard sets with a flipped byte (C06 for Leopard)
     for fam in ["leo8", "leo16"]:
         for (d, p, size) in [(5, 3, 64), (4, 4, 128), (10, 4, 32768 + 64)]:
